@@ -1284,6 +1284,306 @@ def part_cfg(spec, mon):
     flush(mon)
 
 
+# --------------------------------------------------------------------------
+# C programs for the 32-bit path  c_to_ir(src, "arm") -> ir_to_wasm
+
+
+class CGen32:
+    """Small seeded generator of C translation units for the arm type sizes (int, long and
+    pointers 32 bit).  The oracle is the reference interpreter on the IR ppci's front-end
+    produces, so nothing here has to be free of C-level undefined behaviour: a run that is
+    undefined in IR terms (division by zero, out-of-range shift, ...) is discarded.
+    Constructs behind open findings are left out (see the dials set from ``avoid``)."""
+
+    def __init__(self, r, avoid):
+        self.r = r
+        self.narrow = NARROW not in avoid and not any(k in avoid for k in CASTS)
+        self.i64 = ("wasm-i64-bitwise-shift-unsupported" not in avoid and not any(k in avoid for k in CASTS)
+                    and "wasm-integer-immediate-out-of-signed-range" not in avoid)
+        self.inv = "wasm-invert-and-unsigned-negate-unsupported" not in avoid
+        self.init = "wasm-data-segment-arguments" not in avoid
+        self.f2i = not any(k in avoid for k in CASTS)
+        self.structs = "wasm-blob-copy-unsupported" not in avoid
+        self.ptrinit = self.init and "wasm-global-pointer-initializer-unsupported" not in avoid
+        self.nest = 1 if "structure-nested-loop-miscompiled" in avoid else 2
+        self.tags = set()
+        self.nvar = 0
+        self.helpers = []
+
+    # ---- expressions of type int
+    def const(self):
+        r = self.r
+        if r.random() < 0.7:
+            return str(r.choice([0, 1, 2, 3, 5, 7, 8, 10, 13, 16, 31, 100, 255, 1000]))
+        return r.choice(["2147483647", "(-2147483647 - 1)", "65535", "(-1)", "(-7)", "(-100)", "123456789", "0x7fff0000"])
+
+    def atom(self, sc):
+        r = self.r
+        k = r.random()
+        if k < 0.55 and sc["ints"]:
+            return r.choice(sc["ints"])
+        if k < 0.65:
+            return "g%d" % r.randrange(3)
+        if k < 0.73:
+            return "arr[(%s) & 7]" % self.expr(sc, 2)
+        if k < 0.78 and sc.get("ptr"):
+            self.tags.add("pointer-deref")
+            return "(*%s)" % sc["ptr"]
+        if k < 0.82 and self.narrow:
+            self.tags.add("narrow-global")
+            return r.choice(["gc", "gs", "guc", "gus", "(int)gu"])
+        return self.const()
+
+    def expr(self, sc, depth=0):
+        r = self.r
+        if depth >= 3 or r.random() < 0.25:
+            return self.atom(sc)
+        k = r.random()
+        a = self.expr(sc, depth + 1)
+        if k < 0.40:
+            return "(%s %s %s)" % (a, r.choice(["+", "-", "*", "&", "|", "^"]), self.expr(sc, depth + 1))
+        if k < 0.48:
+            self.tags.add("division")
+            return "(%s %s ((%s & 7) + 1))" % (a, r.choice(["/", "%"]), self.expr(sc, depth + 1))
+        if k < 0.56:
+            self.tags.add("shift")
+            return "(%s %s %d)" % (a, r.choice(["<<", ">>"]), r.randrange(32))
+        if k < 0.66:
+            self.tags.add("comparison-value")
+            return "(%s %s %s)" % (a, r.choice(["<", ">", "<=", ">=", "==", "!="]), self.expr(sc, depth + 1))
+        if k < 0.72:
+            self.tags.add("logical")
+            return "(%s %s %s)" % (a, r.choice(["&&", "||"]), self.expr(sc, depth + 1))
+        if k < 0.76:
+            return "(!%s)" % a
+        if k < 0.80:
+            return "(-%s)" % a
+        if k < 0.83 and self.inv:
+            self.tags.add("bitwise-not")
+            return "(~%s)" % a
+        if k < 0.89:
+            self.tags.add("ternary")
+            return "(%s ? %s : %s)" % (a, self.expr(sc, depth + 1), self.expr(sc, depth + 1))
+        if k < 0.93 and self.helpers and not sc.get("nocall"):
+            self.tags.add("call")
+            return "%s(%s, %s)" % (r.choice(self.helpers), a, self.expr(sc, depth + 1))
+        if k < 0.95 and self.narrow:
+            self.tags.add("narrowing-cast")
+            return "((%s)%s)" % (r.choice(["char", "unsigned char", "short", "unsigned short"]), a)
+        if k < 0.97 and self.narrow:
+            self.tags.add("unsigned")
+            return "((int)((unsigned)%s %s (unsigned)%s))" % (a, r.choice(["/", "%", ">>", "<", "*"]),
+                                                             "((%s & 15) + 1)" % self.expr(sc, depth + 1))
+        if k < 0.985 and self.i64:
+            self.tags.add("long-long")
+            return "((int)(((long long)%s * %s) >> %d))" % (a, self.expr(sc, depth + 1), r.randrange(40))
+        return a
+
+    def dexpr(self, sc, depth=0):
+        """expression of type double"""
+        r = self.r
+        if depth >= 2 or r.random() < 0.3:
+            k = r.random()
+            if k < 0.4:
+                return r.choice(["gd", "0.5", "2.0", "1.25", "-3.5", "100.0", "0.1"])
+            return "(double)%s" % self.atom(sc)
+        return "(%s %s %s)" % (self.dexpr(sc, depth + 1), r.choice(["+", "-", "*"]), self.dexpr(sc, depth + 1))
+
+    # ---- statements
+    def lhs(self, sc):
+        r = self.r
+        k = r.random()
+        if k < 0.5 and sc["locals"]:
+            return r.choice(sc["locals"])
+        if k < 0.75:
+            return "g%d" % r.randrange(3)
+        if k < 0.9:
+            return "arr[(%s) & 7]" % self.expr(sc, 2)
+        if sc.get("ptr"):
+            return "*%s" % sc["ptr"]
+        return "g0"
+
+    def block(self, sc, budget, ind, loop_depth, in_loop):
+        r = self.r
+        out = []
+        n = r.randint(1, 4)
+        for _ in range(n):
+            if budget[0] <= 0:
+                break
+            budget[0] -= 1
+            k = r.random()
+            pad = "  " * ind
+            if k < 0.38:
+                op = r.choice(["=", "=", "=", "+=", "-=", "^=", "|=", "&=", "*="])
+                out.append("%s%s %s %s;" % (pad, self.lhs(sc), op, self.expr(sc)))
+            elif k < 0.52:
+                self.tags.add("if")
+                out.append("%sif (%s) {" % (pad, self.expr(sc, 1)))
+                out += self.block(sc, budget, ind + 1, loop_depth, in_loop)
+                if r.random() < 0.5:
+                    out.append("%s} else {" % pad)
+                    out += self.block(sc, budget, ind + 1, loop_depth, in_loop)
+                out.append("%s}" % pad)
+            elif k < 0.66 and loop_depth < self.nest:
+                self.nvar += 1
+                v = "i%d" % self.nvar
+                kind = r.choice(["for", "for", "while", "do"])
+                self.tags.add(kind + "-loop")
+                trip = r.randint(1, 5)
+                sc2 = dict(sc, ints=sc["ints"] + [v])
+                if kind == "for":
+                    out.append("%sfor (%s = 0; %s < %d; %s++) {" % (pad, v, v, trip, v))
+                    out += self.block(sc2, budget, ind + 1, loop_depth + 1, True)
+                    out.append("%s}" % pad)
+                elif kind == "while":
+                    out.append("%s%s = %d;" % (pad, v, trip))
+                    out.append("%swhile (%s > 0) {" % (pad, v))
+                    out.append("%s  %s--;" % (pad, v))
+                    out += self.block(sc2, budget, ind + 1, loop_depth + 1, True)
+                    out.append("%s}" % pad)
+                else:
+                    out.append("%s%s = 0;" % (pad, v))
+                    out.append("%sdo {" % pad)
+                    out.append("%s  %s++;" % (pad, v))
+                    out += self.block(sc2, budget, ind + 1, loop_depth + 1, True)
+                    out.append("%s} while (%s < %d);" % (pad, v, trip))
+            elif k < 0.70 and in_loop:
+                self.tags.add("break")
+                out.append("%sif (%s) break;" % (pad, self.expr(sc, 2)))
+            elif k < 0.74 and in_loop:
+                self.tags.add("continue")
+                out.append("%sif (%s) continue;" % (pad, self.expr(sc, 2)))
+            elif k < 0.78:
+                self.tags.add("early-return")
+                out.append("%sif (%s) return %s;" % (pad, self.expr(sc, 2), self.expr(sc, 2)))
+            elif k < 0.84 and not sc.get("nocall"):
+                self.tags.add("report")
+                out.append("%sreport(%s);" % (pad, self.expr(sc, 1)))
+            elif k < 0.88:
+                self.tags.add("switch")
+                out.append("%sswitch ((%s) & 3) {" % (pad, self.expr(sc, 2)))
+                for c in range(r.randint(1, 3)):
+                    out.append("%s  case %d: %s += %s;%s" % (pad, c, self.lhs(sc), self.expr(sc, 2),
+                                                           " break;" if r.random() < 0.7 else ""))
+                out.append("%s  default: %s ^= %s; break;" % (pad, self.lhs(sc), self.expr(sc, 2)))
+                out.append("%s}" % pad)
+            elif k < 0.92:
+                self.tags.add("double")
+                out.append("%sgd = %s;" % (pad, self.dexpr(sc)))
+                out.append("%sif (gd %s %s) %s += 1;" % (pad, r.choice(["<", ">", "<=", ">="]), self.dexpr(sc, 1), self.lhs(sc)))
+            elif k < 0.94 and self.f2i:
+                self.tags.add("float-to-int")
+                out.append("%s%s = (int)(%s * 0.25);" % (pad, self.lhs(sc), self.dexpr(sc, 1)))
+            elif k < 0.96 and self.structs:
+                self.tags.add("struct-assign")
+                out.append("%ss1.a = %s; s1.b = %s;" % (pad, self.expr(sc, 2), self.expr(sc, 2)))
+                out.append("%ss2 = s1;" % pad)
+                out.append("%s%s = s2.a - s2.b;" % (pad, self.lhs(sc)))
+            elif k < 0.98 and sc.get("ptr"):
+                self.tags.add("pointer-retarget")
+                out.append("%s%s = &arr[(%s) & 7];" % (pad, sc["ptr"], self.expr(sc, 2)))
+            elif len(self.helpers) >= 2 and not sc.get("nocall"):
+                self.tags.add("function-pointer")
+                out.append("%sfp = (%s) ? %s : %s;" % (pad, self.expr(sc, 2), self.helpers[0], self.helpers[1]))
+                out.append("%s%s = fp(%s, %s);" % (pad, self.lhs(sc), self.expr(sc, 2), self.expr(sc, 2)))
+            else:
+                out.append("%s%s = %s;" % (pad, self.lhs(sc), self.expr(sc)))
+        return out
+
+    def function(self, name, params, size, helper):
+        r = self.r
+        nloc = r.randint(1, 3)
+        locs = ["v%d" % i for i in range(nloc)]
+        first = self.nvar
+        sc = {"ints": list(params) + locs, "locals": locs + list(params), "ptr": "p" if r.random() < 0.6 else None,
+              "nocall": helper and not self.helpers}
+        body = self.block(sc, [size], 1, 0, False)
+        decl = ["  int %s;" % ", ".join("%s = %s" % (v, self.const()) for v in locs)]
+        loopvars = ["i%d" % i for i in range(first + 1, self.nvar + 1)]
+        if loopvars:
+            decl.append("  int %s;" % ", ".join("%s = 0" % v for v in loopvars))
+        if sc["ptr"]:
+            decl.append("  int *p = &g%d;" % r.randrange(3))
+        if any("fp(" in ln or "fp =" in ln for ln in body):
+            decl.append("  int (*fp)(int, int);")
+        head = "%sint %s(%s)" % ("static " if helper else "", name, ", ".join("int " + p for p in params))
+        ret = "  return %s;" % self.expr(sc, 1)
+        return [head + " {"] + decl + body + [ret, "}"]
+
+    def program(self):
+        r = self.r
+        out = []
+        if self.init:
+            self.tags.add("initialised-globals")
+            out.append("int g0 = %d, g1 = %d, g2;" % (r.randint(-50, 50), r.randint(0, 1000)))
+            out.append("int arr[8] = {%s};" % ", ".join(str(r.randint(-9, 99)) for _ in range(r.randint(1, 8))))
+            out.append("double gd = %s;" % r.choice(["1.5", "-0.25", "100.0"]))
+        else:
+            out.append("int g0, g1, g2;")
+            out.append("int arr[8];")
+            out.append("double gd;")
+        if self.narrow:
+            out.append("char gc; short gs; unsigned char guc; unsigned short gus; unsigned gu;")
+        if self.structs:
+            out.append("struct S { int a; int b; } s1, s2;")
+        out.append("void report(int);")
+        for i in range(r.randint(0, 2)):
+            name = "h%d" % i
+            out += self.function(name, ["a", "b"], r.choice([3, 5, 8]), True)
+            self.helpers.append(name)
+        entry = self.function("entry", ["a", "b", "c"], r.choice([6, 10, 16]), False)
+        if not self.init:
+            # the avoid switch of wasm-data-segment-arguments: globals are filled by code
+            fill = ["  g0 = a ^ 5; g1 = 77; arr[1] = b; arr[6] = -3; gd = 1.5;"]
+            k = [i for i, ln in enumerate(entry) if not ln.startswith("  int ")][1]
+            entry[k:k] = fill
+        if self.narrow:
+            k = [i for i, ln in enumerate(entry) if not ln.startswith("  int ")][1]
+            entry[k:k] = ["  gc = (char)a; gs = (short)b; guc = (unsigned char)c; gus = (unsigned short)(a * 3); gu = (unsigned)b;"]
+        out += entry
+        return "\n".join(out) + "\n"
+
+
+C_ARGS = [[0, 1, 2], [7, -3, 100], [-1, 2147483647, 5], [123456, 3, -9]]
+
+
+def part_c(spec, mon):
+    import contextlib
+    import logging
+    from ppci import api
+    from ppci.common import CompilerError
+    avoid = spec["avoid"]
+    logging.disable(logging.CRITICAL)
+    for idx in range(spec["start"], spec["start"] + spec["count"]):
+        r = rng(spec["seed"], PROPERTY, "c%d" % idx)
+        gen = CGen32(r, avoid)
+        src = gen.program()
+        case = {"id": "c32/%s/%d" % (spec["seed"], idx), "index": idx, "source": src}
+        try:
+            with contextlib.redirect_stdout(io.StringIO()), contextlib.redirect_stderr(io.StringIO()):
+                m = api.c_to_ir(io.StringIO(src), "arm")
+        except CompilerError as e:
+            mon.count("c_diagnostics", str(getattr(e, "msg", e))[:60])
+            mon.discard("C front-end diagnostic (C01's business)")
+            continue
+        except Exception as e:  # a front-end crash is C01's / C28's business, not C23's
+            mon.count("c_diagnostics", "%s: %s" % (type(e).__name__, str(e)[:50]))
+            mon.discard("C front-end exception (C01's business)")
+            continue
+        if "structure-same-target-cjump-asserts" in avoid:
+            if neutralise_same_target(m):
+                mon.count("neutralised", "same-target-cjump")
+        why = static_avoid(m, avoid)
+        if why:
+            mon.discard("avoided: " + why)
+            continue
+        for t in gen.tags:
+            mon.count("c_tags", t)
+        prepare_module(m, {"entry": C_ARGS}, mon, case, "c", replay=dict(spec, start=idx, count=1))
+        flush(mon, force=False, batch=8)
+    flush(mon)
+
+
 def run_shard(spec):
     mon = Mon(spec)
     part = spec["part"]
